@@ -222,6 +222,65 @@ func (fi *fnInfo) instrPostDominates(a, b ssa.Instruction) bool {
 	return fi.postDominates(a.Block(), b.Block())
 }
 
+// natLoop is a natural loop: header plus the blocks that reach a back edge without leaving through the header.
+type natLoop struct {
+	header int
+	blocks map[int]bool
+}
+
+// naturalLoops returns the natural loops of the cut CFG (loops sharing a header are merged), innermost first.
+func (fi *fnInfo) naturalLoops() []natLoop {
+	byHeader := map[int]map[int]bool{}
+	for u := 0; u < fi.n; u++ {
+		if !fi.reach[u] {
+			continue
+		}
+		for _, h := range fi.succs[u] {
+			if h >= fi.n || !domQuery(fi.idom, h, u) {
+				continue
+			}
+			// back edge u -> h
+			body := byHeader[h]
+			if body == nil {
+				body = map[int]bool{h: true}
+				byHeader[h] = body
+			}
+			stack := []int{u}
+			for len(stack) > 0 {
+				x := stack[len(stack)-1]
+				stack = stack[:len(stack)-1]
+				if body[x] {
+					continue
+				}
+				body[x] = true
+				stack = append(stack, fi.preds[x]...)
+			}
+		}
+	}
+	var out []natLoop
+	for h, b := range byHeader {
+		out = append(out, natLoop{h, b})
+	}
+	sort.Slice(out, func(i, j int) bool {
+		if len(out[i].blocks) != len(out[j].blocks) {
+			return len(out[i].blocks) < len(out[j].blocks)
+		}
+		return out[i].header < out[j].header
+	})
+	return out
+}
+
+// innermostLoop returns the smallest natural loop containing block b, or nil.
+func (fi *fnInfo) innermostLoop(b int) *natLoop {
+	for _, l := range fi.naturalLoops() {
+		if l.blocks[b] {
+			ll := l
+			return &ll
+		}
+	}
+	return nil
+}
+
 // ---- edge facts ----------------------------------------------------------
 
 // Fact is a branch condition known to hold (Truth) on entry to a block.
